@@ -194,6 +194,72 @@ add("permute_private_generator", [(GU, '''    random.seed(
     (GU, "def _permute_molecule(m: nx.Graph) -> nx.Graph:", "def _permute_molecule(m: nx.Graph, rng: Any = random) -> nx.Graph:"),
     (GU, "    random.shuffle(permuted_labels)", "    rng.shuffle(permuted_labels)")], silent=True, note="private seeded generator passed to every draw")
 
+# ---------------------------------------------------------------- behaviour-preserving refactors (must stay silent)
+add("refactor_partition_dictcomp", (CAN, '''    partitions = [unique_attr_seqs_to_partitions[attr_seq] for attr_seq in attr_seqs]
+
+    m_partitioned = m.copy()
+    nx.set_node_attributes(
+        m_partitioned, dict(zip(list(m_partitioned), partitions)), PARTITION
+    )''', '''    m_partitioned = m.copy()
+    nx.set_node_attributes(
+        m_partitioned,
+        {atom: unique_attr_seqs_to_partitions[attribute_sequence(m, atom, attribute)] for atom in m},
+        PARTITION,
+    )'''), silent=True, note="class looked up per atom instead of zipping two aligned lists")
+add("refactor_edge_list_generator", (SER, '''    sorted_edges = sorted([sorted(edge) for edge in m.edges()])
+    edge_list_string = "".join(
+        [f"({edge[0] + 1}-{edge[1] + 1})" for edge in sorted_edges]
+    )''', '''    sorted_edges = sorted(sorted(edge) for edge in m.edges)
+    edge_list_string = "".join(f"({a + 1}-{b + 1})" for a, b in sorted_edges)'''), silent=True)
+add("refactor_v3000_props_dict", (V3, '''    optional_attrs = {
+        CHG: [int(i.split("=")[1]) for i in line if i.startswith("CHG=")],
+        MASS: (
+            [int(i.split("=")[1]) for i in line if i.startswith("MASS=")]
+            if not isotope_mass
+            else [isotope_mass]
+        ),
+        RAD: [int(i.split("=")[1]) for i in line if i.startswith("RAD=")],
+    }
+    for key, val in optional_attrs.items():
+        # An explicitly written default (CHG=0, RAD=0, MASS=0) means the same as omitting it.
+        if val and (value := val.pop()) != 0:
+            atom_attrs[key] = value''', '''    for token in line[7:]:
+        if token.startswith("CHG="):
+            chg = int(token[4:])
+            if chg != 0:
+                atom_attrs[CHG] = chg
+        elif token.startswith("RAD="):
+            rad = int(token[4:])
+            if rad != 0:
+                atom_attrs[RAD] = rad
+        elif token.startswith("MASS=") and not isotope_mass:
+            mass = int(token[5:])
+            if mass != 0:
+                atom_attrs[MASS] = mass
+    if isotope_mass:
+        atom_attrs[MASS] = isotope_mass'''), silent=True, note="explicit loop over the optional tokens")
+add("refactor_v2000_clear_inline", (V2, '''        _clear_atom_attribute(CHG, atom_attrs)
+        _clear_atom_attribute(RAD, atom_attrs)''', '''        for atom_attr in atom_attrs.values():
+            atom_attr.pop(CHG, None)
+            atom_attr.pop(RAD, None)'''), silent=True)
+add("refactor_parser_inline_add_bond", (PAR, "        self._add_bond(index1, index2)", "        self._bonds.append((index1 - 1, index2 - 1))"), silent=True)
+add("refactor_sort_by_label_add_node", (GU, '''    nodes_sorted_by_label = sorted(list(m.nodes(data=True)))
+
+    m_sorted_by_label = nx.Graph()
+    m_sorted_by_label.add_nodes_from(nodes_sorted_by_label)''', '''    m_sorted_by_label = nx.Graph()
+    m_sorted_by_label.add_nodes_from((n, m.nodes[n]) for n in sorted(m.nodes))'''), silent=True)
+add("refactor_writer_atom_line_parts", (WR, '''        _add_v30_line(
+            lines,
+            f"{index + 1} {attrs[ELEMENT_SYMBOL]} {x:.6f} {y:.6f} {z:.6f} 0{charge}{radical}{atomic_mass}",
+        )''', '''        atom_line = f"{index + 1} {attrs[ELEMENT_SYMBOL]} {x:.6f} {y:.6f} {z:.6f} 0"
+        atom_line += f"{charge}{radical}{atomic_mass}"
+        _add_v30_line(lines, atom_line)'''), silent=True)
+add("refactor_formula_explicit_sorted_keys", (SER, '''    for k, v in dict(sorted(element_counts.items())).items():
+        sum_formula_string += f"{k}{v}" if v > 1 else k''', '''    for k, v in sorted(element_counts.items()):
+        sum_formula_string += f"{k}{v}" if v > 1 else k'''), silent=True)
+add("refactor_get_number_of_partitions_len", [(CAN, "    return max(nx.get_node_attributes(m, PARTITION).values())", "    return len(set(nx.get_node_attributes(m, PARTITION).values()))")], silent=True,
+    note="class count instead of highest class id: the equality test of the driver is unaffected")
+
 # ---------------------------------------------------------------- bliss / index spaces
 add("bliss_explicit_inverse_igraph10", (CAN, '''    old_labels_in_canonical_order = m_igraph.permute_vertices(permutation).vs[
         "_nx_name"
